@@ -5,7 +5,7 @@ import json, sys
 CHECKS = {
  "C19": dict(
    level="model_checking",
-   text="Bounded symbolic execution of the real code from go/ssa built from the working tree. optimize half: optimize/pad/offsetsof/align/sort.Sort for every vector of n<=3 (quick) / n<=4 (thorough) fields "
+   text="Bounded symbolic execution of the real code from go/ssa built from the working tree. optimize half: optimize/pad/offsetsof/align/sort.Sort for every vector of n<=3 fields "
         "with symbolic sizes (k*align, k<2^24; the last field may be a size-1 padded zero-size field) and alignments {1,2,4,8}: permutation, valid gap-free aligned layout, not larger than the input order; the default mode (combine, then optimize) on 2-3 top-level fields without nesting. "
         "structlayout half: gcsizes.Sizeof/Alignof/Offsetsof against go/types' own gc sizes (executed by the same engine) on every struct skeleton of 0-3 fields over 12 basic kinds, pointer, slice, interface, "
         "arrays with symbolic length (<2^16), nested/empty/named structs; and cmd/structlayout.sizes(): the reported fields tile [0, Sizeof) without gaps or overlaps, incl. nesting depth 2 at non-zero offsets.",
@@ -89,7 +89,7 @@ CHECKS = {
    design="3/C11"),
  "C02": dict(
    level="model_checking",
-   text="IR is built natively by go/ir from /repo for a hand-written corpus (~230 functions), a bounded-exhaustive family of generated programs (escapes, loops, break/continue/goto, early returns), 200 (thorough 1500) sampled goto-built CFGs and selected repository packages, "
+   text="IR is built natively by go/ir from /repo for a hand-written corpus (~230 functions), a bounded-exhaustive family of generated programs (escapes, loops, break/continue/goto, early returns), 200 (thorough 600) sampled goto-built CFGs and selected repository packages, "
         "in 5 builder modes. Per function (<= 24 blocks quick, 60 thorough): dominance is decided by bounded path-existence SMT queries for every ordered block pair, def-dominates-use (incl. phi edges at the end of the "
         "predecessor) is read off that relation; operand/result typing is decided by the solver's sort checker over an encoding with one sort per Go type and one typed function per instruction rule (arithmetic, comparison, load/store, phi, return, field, index, map lookup/update, send, extract, closure bindings, calls), further documented rules are checked directly (MakeSlice, Slice, ChangeType, MakeInterface, TypeAssert, Alloc); "
         "terminator/phi-arity/pred-succ/operand-referrer clauses are checked as preconditions of the encoding.",
